@@ -182,8 +182,11 @@ def _map_vars(
     for role, tgt in branches:
         if not is_atomic(tgt):
             tgt = _map_vars(tgt, varmap)
-        elif role != '/' and tgt in varmap:
-            tgt = varmap[tgt]
+        elif role != '/' and isinstance(tgt, str):
+            # a reference may carry an alignment (e.g., b~e.1)
+            atom, tilde, aln = tgt.partition('~')
+            if atom in varmap:
+                tgt = varmap[atom] + tilde + aln
         newbranches.append((role, tgt))
 
     return (varmap[var], newbranches)
